@@ -699,6 +699,16 @@ def run_dlcache(ctx, lib=None, cases=None):
                       "candidate name incl. %d names with bytes >= 0x80, %d names of >= 100 bytes and the empty name; the table "
                       "model takes the hash as a parameter, the theorems hold for every hash"
                       % (len([n for n in pool if any(b >= 128 for b in n)]), len([n for n in pool if len(n) >= 100])),
+        "model_limits": "sizes/counts are nat without the 2^32 wrap of unsigned int (coincides while size*3 < 2^32); "
+                        "dlcache_add_dl(NULL name) early return, dlcache_print not modelled; dlcache_delete only judged by the "
+                        "oracle (dlcloses exactly the non-NULL handles held). Theorems hold for EVERY hash function and any "
+                        "sequence length; precondition size >= 1 (size 0: dlcache_new_size0_refuted = hash % 0)",
+        "trusted_glue": "harness/hash/dlcachedrive.c defines dlopen/dlclose/dlerror itself, so the REAL dlcache_new and "
+                        "dlcache_get_handle run with fake handles; harness/ocaml/hash/hashrun.ml decodes/prints only",
+        "documented_behaviour": "duplicate dlcache_add_dl of one name: two entries; lookups return the first until the table "
+                                "grows, then possibly the second (Properties_C17b.dlcache_dup_first_wins_refuted; corpus case "
+                                "dlcache_dup_second_wins_after_growth.txt, model and code agree). Unreachable through "
+                                "dlcache_get_handle",
         "vm_initial_size(DEFAULT_DLCACHE_SIZE)": vm_size,
         "initial_sizes": dict(sorted(stats["size0"].items())),
         "resizes_crossed(observed)": dict(sorted(stats["resizes_crossed"].items())),
@@ -834,3 +844,384 @@ def run_dlcache_e2e(ctx, nevrun, tmp):
         "rule": "library k exports dlc_k(x) = CONST_k + x; libraries are loaded in order and earlier ones are called again "
                 "after each load (all of them around the 12th/24th load, where a 16-slot cache holding \"host\" grows)"}
     return {"calls": calls, "good": good}
+
+
+# ==========================================================================================
+# The same table shape elsewhere in the tree: string table (back/strtab.c, dedup add) and
+# function table (back/functab.c, blind add).  Models coq/Hash/StrTabModel.v / FuncTabModel.v,
+# proofs StrTabProofs.v / FuncTabProofs.v, statements coq/Hash/StrTabStatements.v /
+# FuncTabStatements.v (compiled here and registered as obligations of the CALLING check).
+#
+#   run_strtab(ctx)   serves C07 ("every constant/string ... reference exists": the order stored in
+#                     the bytecode indexes the string it was given for); string literals of C02 and the
+#                     extern library / function names of C17 go through the same table.
+#   run_functab(ctx)  serves C15 (embedding API: nev_prepare* finds the entry point by functab_lookup).
+def register_statements(ctx, relpath):
+    """compile a Properties-style statement file and register its theorems as obligations"""
+    path = os.path.join(common.COQ, relpath)
+    ok, log = common.coq_make([relpath[:-2] + ".vo"])
+    r = common.check_one_property_file(path)
+    names = []
+    for t in r["theorems"]:
+        good = t["status"] == "discharged"
+        ctx.obligation(t["name"], good, None if good else {"status": t["status"], "log": r["log"][-1500:]})
+        names.append({"name": t["name"], "status": t["status"], "axioms": t["axioms"]})
+    if not r["theorems"]:
+        ctx.obligation(relpath, False, {"log": (r["log"] + log)[-2000:]})
+    ctx.coverage.setdefault("theorems", []).extend(names)
+    return names
+
+
+def real_hashes(ctx, lib, workdir, pool):
+    drv = common.cc_driver("dlcachedrive", ["hash/dlcachedrive.c"], lib)
+    hpath = os.path.join(workdir, "hash_cases.txt")
+    with open(hpath, "w") as f:
+        f.write("\n".join("H " + hx(n) for n in pool) + "\n")
+    rc, hout, herr = run_driver(drv, hpath)
+    if rc != 0 or len(hout) != len(pool):
+        raise common.BuildError("hash_string driver failed: " + herr[-500:])
+    return {n: int(l.split()[1]) for n, l in zip(pool, hout)}
+
+
+def strtab_op_line(op):
+    return op[0] if len(op) == 1 else ("%s %d" % op if isinstance(op[1], int) else "%s %s" % (op[0], hx(op[1])))
+
+
+def strtab_op_show(op):
+    names = {"S": "strtab_new(%d)", "s": "strtab_add_string(%r)", "q": "strtab_lookup_string(%r)", "T": "strtab_to_array()"}
+    return names[op[0]] % tuple(show(a) if isinstance(a, bytes) else a for a in op[1:])
+
+
+def judge_strtab(ops, out):
+    strings = []
+    for k, op in enumerate(ops):
+        if k >= len(out):
+            return ("crash", k, "the driver died in this operation")
+        head = out[k].split("|")[0].split()
+        if not head or head[0] != op[0]:
+            return ("crash", k, "unexpected output %r" % out[k][:200])
+        if op[0] == "S":
+            strings = []
+        elif op[0] == "s":
+            if op[1] not in strings:
+                strings.append(op[1])
+            want = strings.index(op[1]) + 1
+            if int(head[1]) != want:
+                return ("wrong-order", k, "strtab_add_string(%r) returned %s; this is distinct string #%d" % (show(op[1]), head[1], want))
+        elif op[0] == "q":
+            want = strings.index(op[1]) + 1 if op[1] in strings else 0
+            if int(head[1]) != want:
+                return ("wrong-lookup", k, "strtab_lookup_string(%r) returned %s, expected %d" % (show(op[1]), head[1], want))
+        elif op[0] == "T":
+            want = ["T", str(len(strings) + 1), "~"] + [hx(s) for s in strings]
+            if head != want:
+                bad = next((i for i, (a, b) in enumerate(zip(head[2:], want[2:])) if a != b), None)
+                return ("wrong-array", k, "strtab_to_array: size %s (expected %d), first differing index %s"
+                        % (head[1] if len(head) > 1 else "?", len(strings) + 1, bad))
+    return None
+
+
+def functab_op_line(op):
+    if op[0] == "f":
+        return "f %s %d %d" % (hx(op[1]), op[2], op[3])
+    if op[0] == "g":
+        return "g " + hx(op[1])
+    if op[0] == "F":
+        return "F %d" % op[1]
+    return op[0]
+
+
+def functab_op_show(op):
+    names = {"F": "functab_new(%d)", "f": "functab_add_func(func %r, entry_type %d, params_count %d)",
+             "g": "functab_lookup(%r)", "K": "functab_close()"}
+    return names[op[0]] % tuple(show(a) if isinstance(a, bytes) else a for a in op[1:])
+
+
+def judge_functab(ops, out):
+    table = {}
+    payload = {}
+    nfunc = 0
+    for k, op in enumerate(ops):
+        if k >= len(out):
+            return ("crash", k, "the driver died in this operation")
+        head = out[k].split("|")[0].split()
+        if not head or head[0] != op[0]:
+            return ("crash", k, "unexpected output %r" % out[k][:200])
+        if op[0] == "F":
+            table, payload, nfunc = {}, {}, 0
+        elif op[0] == "f":
+            table.setdefault(op[1], []).append(nfunc)
+            payload[nfunc] = (op[2], op[3])
+            nfunc += 1
+        elif op[0] == "g":
+            got = head[1] if len(head) > 1 else "?"
+            if op[1] in table:
+                want = table[op[1]]
+                if got == "-":
+                    return ("lost-entry", k, "functab_lookup(%r) finds nothing; function #%d was added under this name" % (show(op[1]), want[0]))
+                fn = int(got.split(":")[1])
+                if fn not in want or (len(want) == 1 and fn != want[0]):
+                    return ("wrong-function", k, "functab_lookup(%r) yields function #%d; added under this name: %s" % (show(op[1]), fn, want))
+                ent = tuple(int(x) for x in got.split(":")[2:4])
+                if ent != payload[fn]:
+                    return ("wrong-entry-data", k, "functab_lookup(%r): entry_type/params_count are %s, function #%d was added with %s"
+                            % (show(op[1]), ent, fn, payload[fn]))
+            elif got != "-":
+                return ("phantom-entry", k, "functab_lookup(%r) finds %s; no such function was added" % (show(op[1]), got))
+    return None
+
+
+def gen_strtab_cases(rng, tier, pool, hashes, vm_size):
+    cases = []
+    n_rand = 120 if tier == "quick" else 1200
+    plan = [(s, r) for s in range(1, 17) for r in (0, 1, 2)] + [(vm_size, r) for r in (0, 1, 2, 3) for _ in range(3)]
+    for _ in range(n_rand):
+        plan.append((rng.choice(list(range(1, 17)) + [vm_size] * 8), rng.choice([0, 1, 2, 3])))
+    for size0, r in plan:
+        mode = rng.choice(["colliding", "colliding", "adjacent", "realistic", "prefixes", "special", "random"])
+        k = max(1, adds_to_cross(size0, r, 1) + rng.randint(0, 3))
+        names = pick_names(rng, pool, hashes, mode, k, max(1, size0 * 2 ** (r + 1) if rng.random() < 0.6 else size0))
+        absent = pick_names(rng, pool, hashes, rng.choice(["colliding", "random"]), 3, max(1, size0 * 2 ** (r + 1)), avoid=names)
+        ops = [("S", size0)]
+        seen = []
+        for n in names:
+            ops.append(("s", n))
+            seen.append(n)
+            if rng.random() < 0.35:
+                ops.append(("s", rng.choice(seen)))          # added again: same order, nothing new
+            for m in rng.sample(seen, min(len(seen), rng.choice([0, 1, 2]))):
+                ops.append(("q", m))
+            if rng.random() < 0.2:
+                ops.append(("q", rng.choice(absent)))
+        for m in seen:
+            ops.append(("q" if rng.random() < 0.7 else "s", m))
+        for m in absent:
+            ops.append(("q", m))
+        ops.append(("T",))
+        cases.append((ops, {"size0": size0, "resizes_wanted": r, "mode": mode, "vm_size": size0 == vm_size}))
+    return cases
+
+
+def gen_functab_cases(rng, tier, pool, hashes, vm_size):
+    cases = []
+    n_rand = 120 if tier == "quick" else 1200
+    plan = [(s, r) for s in range(1, 17) for r in (0, 1, 2)] + [(vm_size, r) for r in (0, 1, 2, 3) for _ in range(3)]
+    for _ in range(n_rand):
+        plan.append((rng.choice(list(range(1, 17)) + [vm_size] * 8), rng.choice([0, 1, 2, 3])))
+    for size0, r in plan:
+        mode = rng.choice(["colliding", "colliding", "adjacent", "realistic", "prefixes", "random"])
+        dups = rng.random() < 0.15
+        k = max(1, adds_to_cross(size0, r, 0) + rng.randint(0, 3))
+        names = pick_names(rng, pool, hashes, mode, k, max(1, size0 * 2 ** (r + 1) if rng.random() < 0.6 else size0))
+        absent = pick_names(rng, pool, hashes, rng.choice(["colliding", "random"]), 3, max(1, size0 * 2 ** (r + 1)), avoid=names)
+        ops = [("F", size0)]
+        seen = []
+        for n in names:
+            if dups and seen and rng.random() < 0.3:
+                n = rng.choice(seen)
+            ops.append(("f", n, rng.randint(0, 3), rng.randint(0, 5)))
+            if n not in seen:
+                seen.append(n)
+            for m in rng.sample(seen, min(len(seen), rng.choice([0, 1, 2]))):
+                ops.append(("g", m))
+            if rng.random() < 0.2:
+                ops.append(("g", rng.choice(absent)))
+        for m in seen:
+            ops.append(("g", m))
+        ops.append(("K",))
+        for m in seen + absent:
+            ops.append(("g", m))
+        cases.append((ops, {"size0": size0, "resizes_wanted": r, "mode": mode, "dups": dups, "vm_size": size0 == vm_size}))
+    return cases
+
+
+def _run_tab(ctx, label, lib, drvname, cases, op_line_fn, op_show_fn, judge_fn, corr_name, what):
+    """shared runner: real driver vs extracted model line by line + the oracle on the real outputs"""
+    drv = common.cc_driver(drvname, ["hash/%s.c" % drvname], lib)
+    workdir = os.path.join(ctx.outdir, label)
+    os.makedirs(workdir, exist_ok=True)
+    nchunks = 8
+    per = (len(cases) + nchunks - 1) // nchunks
+    chunks = [cases[i:i + per] for i in range(0, len(cases), per)]
+
+    def run_chunk(ic):
+        i, ch = ic
+        path = os.path.join(workdir, "cases_%02d.txt" % i)
+        with open(path, "w") as f:
+            for ops, _ in ch:
+                f.write("\n".join(op_line_fn(o) for o in ops) + "\n")
+        rc_c, out_c, err_c = run_driver(drv, path)
+        rc_m, so, se = common.sh([RUN, path], timeout=600)
+        return rc_c, out_c, err_c, rc_m, so.split("\n"), se
+
+    with ThreadPoolExecutor(nchunks) as ex:
+        outs = list(ex.map(run_chunk, enumerate(chunks)))
+    first_diff = None
+    failures = {}
+    evals = 0
+    distinct = set()
+    grown_hist = collections.Counter()
+    size_hist = collections.Counter()
+    for ch, (rc_c, out_c, err_c, rc_m, out_m, err_m) in zip(chunks, outs):
+        if rc_m != 0 and first_diff is None:
+            first_diff = {"error": "model runner failed", "stderr": err_m[-600:]}
+        pos = 0
+        for ops, meta in ch:
+            oc = out_c[pos:pos + len(ops)]
+            om = out_m[pos:pos + len(ops)]
+            truncated = len(oc) < len(ops)
+            v = judge_fn(ops, oc)
+            if v is None and truncated:
+                v = ("crash", len(oc), "driver output ends early")
+            if v is not None:
+                kind, detail = v[0], v[2]
+                if kind == "crash":
+                    mm = re.search(r"(ERROR: AddressSanitizer[^\n]*|runtime error:[^\n]*|[^\n]*Assertion[^\n]*)", err_c)
+                    sm = re.search(r"SUMMARY: [^\n]*", err_c)
+                    detail = ((mm.group(1) if mm else "") + " " + (sm.group(0) if sm else "")).strip() or err_c[-400:]
+                    if "Assertion" in err_c:
+                        kind = "assert"
+                    elif "AddressSanitizer" in err_c:
+                        m2 = re.search(r"AddressSanitizer: ([a-z-]+)", err_c)
+                        kind = "asan-" + (m2.group(1) if m2 else "report")
+                failures.setdefault("%s:%s" % (label, kind), []).append((ops, meta, v, detail))
+            if truncated:
+                break
+            if first_diff is None:
+                for k, (a, b) in enumerate(zip(oc, om + ["<missing>"] * (len(oc) - len(om)))):
+                    if a != b:
+                        first_diff = {"operation": op_show_fn(ops[k]), "driver_line": op_line_fn(ops[k]),
+                                      "operations_before": [op_line_fn(o) for o in ops[max(0, k - 12):k]],
+                                      "case_first_operation": op_line_fn(ops[0]), "code": a[:1200], "model": b[:1200], "meta": meta}
+                        break
+            pos += len(ops)
+            evals += len(ops)
+            sizes = []
+            for line in oc:
+                p = line.split("|")
+                if len(p) == 3:
+                    sz = int(p[1].split()[0])
+                    if not sizes or sizes[-1] != sz:
+                        sizes.append(sz)
+            grown = max(0, len(sizes) - 1)
+            grown_hist[grown] += 1
+            size_hist[meta["size0"]] += 1
+            if grown >= 1:
+                distinct.add(hash(tuple(ops)))
+
+    def fails_same(ops, kind):
+        path = os.path.join(workdir, "shrink.txt")
+        with open(path, "w") as f:
+            f.write("\n".join(op_line_fn(o) for o in ops) + "\n")
+        rc, out, se = run_driver(drv, path, timeout=60)
+        v = judge_fn(ops, out)
+        if v is None and rc != 0:
+            v = ("crash", len(out), se[-300:])
+        return v is not None and v[0] == kind, v
+
+    for key, fl in sorted(failures.items()):
+        fl.sort(key=lambda f: (not f[1].get("vm_size"), len(f[0])))
+        ops, meta, v, detail = fl[0]
+        cur, runs, n = list(ops), 0, 2
+        while len(cur) > 2 and runs < 200:                  # delta debugging, first operation stays
+            body = cur[1:]
+            chunk = max(1, len(body) // n)
+            reduced = False
+            for i in range(0, len(body), chunk):
+                cand = [cur[0]] + body[:i] + body[i + chunk:]
+                if len(cand) < 2:
+                    continue
+                runs += 1
+                okk, _ = fails_same(cand, v[0])
+                if okk:
+                    cur, n, reduced = cand, max(n - 1, 2), True
+                    break
+                if runs >= 200:
+                    break
+            if not reduced:
+                if chunk == 1:
+                    break
+                n = min(len(body), n * 2)
+        okk, v2 = fails_same(cur, v[0])
+        if not okk:
+            cur, v2 = ops, v
+        if v2[0] != "crash":
+            detail = v2[2]
+        ctx.violation(key, "%s (initial size %d%s): after %d operations %s"
+                      % (what, meta["size0"], " = the size the compiler uses" if meta.get("vm_size") else "", len(cur) - 1, detail[:300]),
+                      {"case": {"operations": [op_show_fn(o) for o in cur], "failing_operation_index": v2[1]},
+                       "driver_input": [op_line_fn(o) for o in cur], "original_length": len(ops), "shrink_runs": runs,
+                       "failing_cases_of_this_kind": len(fl), "detail": detail, "meta": meta,
+                       "replay_how": "write driver_input to a file and run <repobuild asan>/%s <file> (harness/hash/%s.c; names are hex)"
+                                     % (drvname, drvname)})
+    if first_diff is not None:
+        ctx.correspondence_broken(corr_name, first_diff)
+    ctx.count(evaluations=evals, nontrivial=len(distinct))
+    return {"cases": len(cases), "operations_compared_line_by_line": evals, "initial_sizes": dict(sorted(size_hist.items())),
+            "resizes_crossed(observed)": dict(sorted(grown_hist.items())), "distinct_cases_that_grew": len(distinct),
+            "first_diff": first_diff}
+
+
+def _tab_setup(ctx, lib, label):
+    if lib is None:
+        lib = common.repobuild("asan")
+    ok, log = common.ocaml_build("hash")
+    if not ok or not os.path.exists(RUN):
+        ctx.correspondence_broken(label + "-model", {"error": "extracted model did not build", "log": log[-1500:]})
+        return None, None, None, None
+    rng = random.Random((ctx.seed << 10) ^ (0x57A7AB if label == "strtab" else 0xF0C7AB))
+    workdir = os.path.join(ctx.outdir, label)
+    os.makedirs(workdir, exist_ok=True)
+    pool = candidate_pool(rng) + [HOST]
+    hashes = real_hashes(ctx, lib, workdir, pool)
+    _GROUPS.clear()
+    return lib, rng, pool, hashes
+
+
+def _module_size(lib, which, default):
+    for root in (os.environ.get("NEVER_REPO", "/repo"),):
+        try:
+            m = re.search(r"%s_new\((\d+)\)" % which, open(os.path.join(root, "back", "module.c")).read())
+            if m:
+                return int(m.group(1))
+        except OSError:
+            pass
+    return default
+
+
+def run_strtab(ctx, lib=None, statements=True):
+    """string table back/strtab.c: obligations (coq/Hash/StrTabStatements.v) + correspondence + oracle"""
+    if statements:
+        register_statements(ctx, "Hash/StrTabStatements.v")
+    lib, rng, pool, hashes = _tab_setup(ctx, lib, "strtab")
+    if lib is None:
+        return {}
+    vm_size = _module_size(lib, "strtab", 32)
+    cases = gen_strtab_cases(rng, ctx.tier, pool, hashes, vm_size)
+    res = _run_tab(ctx, "strtab", lib, "tabdrive", cases, strtab_op_line, strtab_op_show, judge_strtab,
+                   "strtab-model-vs-strtab.c", "string table back/strtab.c")
+    res["size_used_by_module_new"] = vm_size
+    res["rule"] = ("initial sizes 1..16 and the module's size x 0..3 growths; strings with the same residue of the REAL hash / adjacent "
+                   "start slots / prefixes / long / high-byte / empty; every string is added again and looked up later; absent strings "
+                   "looked up; strtab_to_array at the end.  oracle: list of distinct strings in first-insertion order")
+    ctx.coverage.setdefault("parts", {})["strtab"] = res
+    return res
+
+
+def run_functab(ctx, lib=None, statements=True):
+    """function table back/functab.c: obligations (coq/Hash/FuncTabStatements.v) + correspondence + oracle"""
+    if statements:
+        register_statements(ctx, "Hash/FuncTabStatements.v")
+    lib, rng, pool, hashes = _tab_setup(ctx, lib, "functab")
+    if lib is None:
+        return {}
+    vm_size = _module_size(lib, "functab", 8)
+    cases = gen_functab_cases(rng, ctx.tier, pool, hashes, vm_size)
+    res = _run_tab(ctx, "functab", lib, "tabdrive", cases, functab_op_line, functab_op_show, judge_functab,
+                   "functab-model-vs-functab.c", "function table back/functab.c")
+    res["size_used_by_module_new"] = vm_size
+    res["rule"] = ("initial sizes 1..16 and the module's size x 0..3 growths; function names colliding modulo the final size of the REAL "
+                   "hash etc.; 15% of the cases add duplicate names (oracle: one of the functions added under the name); lookups of "
+                   "present and absent names before and after functab_close")
+    ctx.coverage.setdefault("parts", {})["functab"] = res
+    return res
